@@ -89,4 +89,17 @@ example : (lastExact [113] tbl3).action = "" ∧ hasProperExt [113] tbl3 = false
 example : lastExact [97, 98] tbl3 = ⟨"X", false⟩ ∧ (lastExact ([97, 98] ++ [100]) tbl3).action = "" ∧
     hasProperExt ([97, 98] ++ [100]) tbl3 = false := by decide
 
+/-- The statement at full strength adds to clause 4: "… and the key that ruled the longer bindings out is
+dispatched next". In the MAIN keymaps it is not: `matchMain` hands every key it read, that one included, to
+`matchedKeys` (where `matchLocal` gives it back). Refuted on the model — table  j ↦ self-insert, jk ↦ X,
+keys `j a`: self-insert runs for `j a`, the stack is empty afterwards, `a` never runs anything — and on the
+code (known finding C03-key-after-shorter-binding-dropped: typing `jazz` with a bind on `jk` returns `jzz`). -/
+theorem key_ruling_out_longer_binds_is_dropped_in_main :
+    let e : Eng := { keys := { buf := [106, 97] },
+                     mainTbl := [([106], ⟨"self-insert", false⟩), ([106, 107], ⟨"X", false⟩)],
+                     registered := ["self-insert", "X"] }
+    (matchMain e).2.1 = ⟨"self-insert", false⟩ ∧ (matchMain e).1.keys.buf = [] ∧
+      (matchMain e).1.keys.matched = [106, 97] := by
+  decide
+
 end RLV.Props.C03
